@@ -16,7 +16,8 @@ from ..unitcheck import unit_text
 ID = "C14"
 RULE_EXTRA = (
     " Also: a traversal abandoned by an exception raised in a handler (at the first, the middle and the last interception), "
-    "followed by reuse of the same visitor object on the same tree and on the first external declarations."
+    "followed by reuse of the same visitor object on the same tree and on the first external declarations; a visitor whose "
+    "handlers remove their node from the enclosing sequence while it is being traversed (on a deep copy)."
 )
 RULE = (
     "(a) exhaustive over the classes listed in _c_ast.cfg (read by an independent parser of the cfg format): for each class, "
@@ -323,6 +324,47 @@ def check_traversal(ast, src, chosen_sets, case, st):
                     bv.visit(root)
                     if bv.log != want:
                         fail("traversal", case, src, "visitor reused after a traversal that a handler abandoned with an exception (at interception %d of %d): %d interceptions on %s, expected %d" % (stop, len(hits), len(bv.log), type(root).__name__, len(want)), "reuse-after-exception")
+    # a handler that edits the sequence it was reached through (the one-pass
+    # "strip these nodes" visitor): every child that belonged to a node when its
+    # traversal started is still reached exactly once
+    if chosen_sets:
+        import copy
+
+        names = chosen_sets[0]
+        cp = copy.deepcopy(ast)
+        acc2 = preorder(cp, [])
+        where = {}
+        for n in acc2:
+            for f, isseq in childfields()[type(n).__name__]:
+                if isseq:
+                    for ch in getattr(n, f) or []:
+                        where[id(ch)] = getattr(n, f)
+        victims = [n for n in acc2 if type(n).__name__ in names and id(n) in where]
+        # (the parser puts ONE specifier node under every declarator of 'struct {..} a, b;':
+        # a node reachable along two paths is legitimately gone the second time)
+        if victims and len({id(x) for x in acc2}) == len(acc2):
+            visited = []
+
+            class Strip(c_ast.NodeVisitor):
+                def visit(self, node):
+                    visited.append(id(node))
+                    return c_ast.NodeVisitor.visit(self, node)
+
+            def mk4(nm):
+                def m(self, node):
+                    lst = where.get(id(node))
+                    if lst is not None and node in lst:
+                        lst.remove(node)
+                    c_ast.NodeVisitor.generic_visit(self, node)
+
+                return m
+
+            for nm in names:
+                setattr(Strip, "visit_" + nm, mk4(nm))
+            Strip().visit(cp)
+            if visited != [id(x) for x in acc2]:
+                missing = len(set(id(x) for x in acc2) - set(visited))
+                fail("traversal", case, src, "a visitor whose handlers remove their node from the enclosing sequence: %d visit() calls for %d nodes that were reachable when the traversal started (%d never visited, %d victims)" % (len(visited), len(acc2), missing, len(victims)), "mutating-visitor")
     if not has_node_valued_attr(ast):
         for flags in ({}, {"attrnames": True, "nodenames": True, "showcoord": True}, {"showemptyattrs": False}, {"nodenames": True, "offset": 3}):
             buf = io.StringIO()
